@@ -39,7 +39,7 @@ GROUPS = [
     ("plots", [False, True]),
     ("constants", ["empty", "xi2", "callable"]),
     ("point_estimates", ["empty", "xi2"]),
-    ("nsamp", ["one", "zero", "two", "vi_then_map", "map_then_vi", "callable_const", "one_noctrl", "float"]),
+    ("nsamp", ["one", "zero", "two", "vi_then_map", "map_then_vi", "callable_const", "one_noctrl", "noctrl_at1", "float"]),
     ("transitions", ["none", "callable", "arity2"]),
     ("inspect", ["none", "one", "two", "three"]),
     ("terminate", ["none", "never", "at0", "arity0"]),
@@ -53,8 +53,9 @@ GROUPS = [
     ("cont", [False, True]),       # initial_index = 1: an earlier call (total = 1) wrote into the SAME output directory
 ]
 NS = {"one": [1, 1], "zero": [0, 0], "two": [2, 2], "vi_then_map": [1, 0], "map_then_vi": [0, 2], "callable_const": [1, 1],
-      "one_noctrl": [1, 1], "float": [1, 1]}
-NOCTRL = {"zero": [True, True], "vi_then_map": [False, True], "map_then_vi": [True, False], "one_noctrl": [True, True]}
+      "one_noctrl": [1, 1], "noctrl_at1": [1, 1], "float": [1, 1]}
+NOCTRL = {"zero": [True, True], "vi_then_map": [False, True], "map_then_vi": [True, False], "one_noctrl": [True, True],
+          "noctrl_at1": [False, True]}
 DEFAULT = {k: v[0] for k, v in GROUPS}
 TOTAL = 2
 
@@ -105,7 +106,7 @@ def to_config(case, version):
 
 def admissible(case):
     """combinations the model does not describe (see ASSUMPTIONS): unchecked type errors"""
-    if case["nsamp"] in ("one_noctrl", "float") and not case["sanity"]:
+    if case["nsamp"] in ("one_noctrl", "noctrl_at1", "float") and not case["sanity"]:
         return False
     return True
 
@@ -174,7 +175,7 @@ def _real(case, work):
         return orig(self, energy, *a, **kw)
     odir = os.path.join(work, "out") if case["outdir"] == "dir" else None
     ns = case["nsamp"]
-    if ns in ("vi_then_map", "map_then_vi", "callable_const"):
+    if ns in ("vi_then_map", "map_then_vi", "callable_const", "noctrl_at1"):
         n_samples = (lambda lst: (lambda i: lst[i]))(NS[ns])
         ic = (lambda none: (lambda i: None if none[i] else m["ic"]))(NOCTRL.get(ns, [False, False]))
     else:
@@ -291,7 +292,7 @@ def oracle(case):
     invalid = (case["export"] in ("pickle", "list") or case["initial_index"] != "zero" or case["strategy"] == "bogus"
                or (case["outdir"] == "none" and case["resume"]) or case["transitions"] == "arity2"
                or case["inspect"] == "three" or case["terminate"] == "arity0" or case["fresh"] == "false"
-               or case["nsamp"] in ("one_noctrl", "float"))
+               or case["nsamp"] in ("one_noctrl", "noctrl_at1", "float"))
     return _judge(case, obs, not invalid)
 
 
@@ -321,7 +322,7 @@ def run(ctx):
         rows = [{**DEFAULT, **r} for r in rows]
     # the valid core: every pair of VALID values must also occur in a row without any invalid value (else the first
     # failing check hides everything behind it)
-    valid_groups = [(g, [v for v in vs if v not in ("bogus", "one_noctrl", "float", "arity2", "three", "arity0", "false",
+    valid_groups = [(g, [v for v in vs if v not in ("bogus", "one_noctrl", "noctrl_at1", "float", "arity2", "three", "arity0", "false",
                                                     "pickle", "list", "total")]) for g, vs in GROUPS]
     valid_groups = [(g, vs if g != "cont" else [True]) for g, vs in valid_groups]
     valid_groups = [(g, vs if g != "resume" else [False]) for g, vs in valid_groups]
